@@ -25,6 +25,9 @@ Verdict(c) ==
     [] c.k = "trace" -> IF ~c.want_file THEN "C06.traceback-does-not-name-the-original-file"
                         ELSE IF ~c.want_line THEN "C06.traceback-does-not-name-the-raising-line"
                         ELSE IF ~c.once THEN "C06.error-not-raised-exactly-once" ELSE IF ~c.closed_after THEN "C06.channel-not-closed-after-error" ELSE "ok"
+    [] c.k = "literal" -> IF c.ok THEN "ok"
+                          ELSE IF c.form = "function" THEN "C06.function-source-altered-by-dedent"
+                          ELSE "C06.module-source-altered-before-it-runs"
     [] c.k = "repeat" -> IF ~c.ok THEN "C06.an-execution-saw-state-of-an-earlier-execution-of-the-same-code" ELSE "ok"
     [] c.k = "stdio" -> IF ~c.alive THEN "C06.stdout-or-stderr-output-broke-the-connection"
                         ELSE IF ~c.ok THEN "C06.stdout-or-stderr-output-entered-the-protocol-stream" ELSE "ok"
